@@ -74,6 +74,10 @@ pub struct KfMatch {
     /// some tag must match this regex (when given)
     #[serde(default)]
     pub tag_regex: Option<String>,
+    /// the `causeclass=a@x+b@y+..` tag (which instructions were injected where): every regex here must match (as a
+    /// whole) at least one of its `+`-separated parts - whatever other instructions the input carries (when non-empty)
+    #[serde(default)]
+    pub cause_all: Vec<String>,
     #[serde(default)]
     pub detail_regex: Option<String>,
     #[serde(default)]
@@ -168,6 +172,18 @@ pub fn kf_matches(k: &KnownFinding, prop: &str, f: &Failure) -> bool {
         let re = cached_regex(r, &k.id);
         if !f.tags.iter().any(|t| re.is_match(t)) {
             return false;
+        }
+    }
+    if !k.m.cause_all.is_empty() {
+        let parts: Vec<&str> = match f.tags.iter().find_map(|t| t.strip_prefix("causeclass=")) {
+            Some(c) => c.split('+').collect(),
+            None => return false,
+        };
+        for r in &k.m.cause_all {
+            let re = cached_regex(&format!("^(?:{})$", r), &k.id);
+            if !parts.iter().any(|p| re.is_match(p)) {
+                return false;
+            }
         }
     }
     if let Some(r) = &k.m.detail_regex {
